@@ -90,7 +90,8 @@ def runHist (cfg : Cfg) (clock : Clock) : List (Op × String) → State → List
   | [], st, acc => (acc.reverse, st)
   | (op, obs) :: rest, st, acc =>
     let r := step cfg clock op st
-    let head := encErr r.err ++ "@" ++ toString r.st.clk
+    -- `Progress.finished`: all tasks finished (true for no tasks)
+    let head := encErr r.err ++ "@" ++ toString r.st.clk ++ "@" ++ encBool (r.st.tasks.all (fun t => t.finished))
     if obs == "d" then runHist cfg clock rest r.st ((head ++ "#" ++ encDump cfg r.st) :: acc)
     else if obs == "e" then
       let d := encDumpElapsed cfg clock r.st
@@ -141,6 +142,11 @@ def handlers : List (String × (List String → String)) := [
           let left := (c.threads.map (fun th => th.prog.length)).sum
           " ".intercalate errs ++ "@" ++ toString c.st.clk ++ "@" ++ toString left ++ "#" ++ encDump cfg c.st
       | _, _, _ => "bad-ops"
+    | _ => "bad-args"),
+  ("pg_pct", fun a => match a with
+    | [tot, comp] =>
+      let t : Task := ⟨0, decInt tot, decInt comp, none, true, none, none, []⟩
+      encFrac t.percentage.1 t.percentage.2
     | _ => "bad-args"),
   ("pg_track", fun a => match a with
     | [cfg, clock, setup, mode, taskId, total, n, seen] =>
